@@ -64,7 +64,9 @@ def gen_entries(rng, depth, conv, cwd="", reg=None, stack=()):
             else:
                 sub_entries = reg[res] = []
                 sub_entries.extend(gen_entries(rng, depth - 1, conv, os.path.dirname(res), reg, stack + (res,)))
-            entries.append({"k": "incl", "flag": rng.choice(["-r", "--requirement"]), "rel": rel, "entries": sub_entries})
+            entries.append({"k": "incl", "flag": rng.choice(["-r", "--requirement"]), "rel": rel, "entries": sub_entries,
+                            # pip strips a comment from every line before it reads its options
+                            "comment": rng.random() < 0.25})
     return entries
 
 
@@ -110,7 +112,7 @@ def render(entries):
                 line += "  # comment"
             out.append(line)
         else:
-            out.append(e["flag"] + " " + e["rel"])
+            out.append(e["flag"] + " " + e["rel"] + ("  # shared pins" if e.get("comment") else ""))
     return out
 
 
